@@ -4,7 +4,7 @@ CONSTANTS
   Instances = {"a1", "a2"}
   MaxGen = 2
   MaxEvents = 6
-  Defects = {"cleanup_name", "sync_generation", "stale_deleted"}
+  Defects = {"cleanup_name", "sync_generation", "created_done"}
   LateMonitor = FALSE
 INVARIANT TypeOK
 PROPERTY PropOneLink
